@@ -14,6 +14,7 @@ code -> spec: seeded random specs with longer item sequences and random nesting 
 run through the real library; TLC (spec/Trace_C16.tla) steps the same machine through the
 recorded events and judges the recorded results.
 """
+import collections
 import json
 import random
 from fractions import Fraction
@@ -36,6 +37,9 @@ PROP = 'C16'
 ALL_FIXES = ('stop', 'skiptrace')
 # historic mechanisms kept as spec mutants: (Mutant value, universe name) - must violate LawRefGroup
 HISTORIC = (('rawbucket', 'SMALL_IDS'), ('nobase', 'SMALL'))
+
+
+Pair = collections.namedtuple('Pair', 'n w')       # a tuple subclass whose constructor takes no iterable
 
 
 class SourceError(Exception):
@@ -231,6 +235,14 @@ class RealSpec:
             return x['s']
         if x['k'] == 'tup':
             return tuple(self.item(y) for y in x['items'])
+        if x['k'] == 'bool':
+            return x['b']
+        if x['k'] == 'none':
+            return None
+        if x['k'] == 'frac':
+            return x['n'] / x['d']                      # a float: 1.0 is equal to 1 and True, and distinct
+        if x['k'] == 'list':
+            return [self.item(y) for y in x['items']]   # unhashable
         raise vlib.MachineryError('bad item %r' % (x,))
 
     # ---- projection of an observed result into the structural values of the spec ----
@@ -260,11 +272,11 @@ class RealSpec:
             return {'k': 'str', 's': o}
         if id(o) in self.objmap:
             return self.objmap[id(o)]
-        if type(o) is dict:
+        if type(o) is dict or isinstance(o, dict) and type(o).__module__ == 'codec':
             return {'k': 'dict', 'items': [[self.proj(k, depth + 1), self.proj(v, depth + 1)] for k, v in o.items()]}
-        if type(o) is list:
+        if type(o) is list or isinstance(o, list) and type(o).__module__ == 'codec':
             return {'k': 'list', 'items': [self.proj(v, depth + 1) for v in o]}
-        if type(o) is tuple:
+        if isinstance(o, tuple):
             return {'k': 'tup', 'items': [self.proj(v, depth + 1) for v in o]}
         return {'k': 'opaque', 's': type(o).__name__}
 
@@ -279,12 +291,18 @@ def containers(o, acc=None):
     return acc
 
 
-def make_target(rs, items, variant, boxed=None):
-    """real target for an item sequence, built through codec.Heap so that it can be snapshotted"""
+def make_target(rs, items, variant, boxed=None, odd=False):
+    """real target for an item sequence, built through codec.Heap so that it can be snapshotted.
+    odd=True: the containers (target, boxes) are instances of list / tuple / dict subclasses that override
+    __getitem__ and are falsy although they hold data; Merge boxes are OrderedDicts whose raw dict order is
+    the reverse of their own; pairs are namedtuples"""
     boxed = rs.boxed
-    if any(x['k'] in ('any', 'strict') for x in items):
-        # objects with a hostile __eq__ are not codec values: a plain target, no snapshot
-        tgt = [rs.item(x) for x in items]
+    if any(x['k'] not in ('int', 'id', 'str') and not (x['k'] == 'tup' and x['items'] and not odd) for x in items):
+        # not codec values (hostile __eq__, floats, the () singleton, unhashables, namedtuples): a plain
+        # target, no snapshot
+        tgt = [Pair(*rs.item(x)) if (odd and x['k'] == 'tup' and len(x['items']) == 2) else rs.item(x) for x in items]
+        if odd:
+            tgt = codec.FALSY_LOGGING['list'](tgt)
         tgt = tuple(tgt) if variant == 'tuple' else tgt
         return None, None, (iter(tgt) if variant == 'gen' else tgt)
     cells, refs = [], []
@@ -294,7 +312,7 @@ def make_target(rs, items, variant, boxed=None):
             cells.append({'cls': 'list', 'items': [{'k': 'int', 'i': t}, {'k': 'int', 'i': t + 10}]})
             refs.append({'k': 'ref', 'a': len(cells)})
         elif boxed == 'Merge':
-            cells.append({'cls': 'dict', 'items': [[{'k': 'int', 'i': t % 2}, {'k': 'int', 'i': t}],
+            cells.append({'cls': 'odict' if odd else 'dict', 'items': [[{'k': 'int', 'i': t % 2}, {'k': 'int', 'i': t}],
                                                    [{'k': 'str', 's': 'v'}, {'k': 'int', 'i': t}]]})
             refs.append({'k': 'ref', 'a': len(cells)})
         elif x['k'] == 'str':
@@ -306,7 +324,7 @@ def make_target(rs, items, variant, boxed=None):
         else:
             refs.append({'k': 'int', 'i': t})
     cells.append({'cls': 'tuple' if variant == 'tuple' else 'list', 'items': refs})
-    heap = codec.Heap(cells)
+    heap = codec.Heap(cells, codec.FALSY_LOGGING if odd else codec.PLAIN)
     tgt = heap.objs[len(cells)]
     return heap, cells, (iter(tgt) if variant == 'gen' else tgt)
 
@@ -322,12 +340,15 @@ def observe(rs, thunk):
 # ---- finding regions (mirror GlomGroup!RegionFirstStop / RegionIdCollision / RegionLimitEmpty) --
 def _key_apply(kf, x):
     if kf == 'ident':
+        if x['k'] in ('int', 'bool', 'frac'):           # equal as dict keys whatever their type
+            return ('num', Fraction(*{'int': lambda: (x['i'], 1), 'bool': lambda: (int(x['b']), 1),
+                                      'frac': lambda: (x['n'], x['d'])}[x['k']]()))
         return ('v', json.dumps(x, sort_keys=True))
     if kf == 'len':
         return len(x['s']) if x['k'] == 'str' else len(x['items'])
     if kf == 'first':
         return x['s'][0] if x['k'] == 'str' else json.dumps(x['items'][0], sort_keys=True)
-    i = x['i']
+    i = x.get('i')
     return {'mod2': lambda: i % 2, 'half': lambda: i // 2, 'const': lambda: 7,
             'skip0': lambda: 'SKIP' if i == 0 else i % 2, 'skipodd': lambda: 'SKIP' if i % 2 else i}[kf]()
 
@@ -450,7 +471,20 @@ def _independence(out, levels, items, ev, rs, slot, res, obs, how):
             out.bad.append(dict(why='results of two evaluations share a container [%s]' % how,
                                 case=dict(kind='carry-over', spec=levels, items=items, earlier_items=pitems,
                                           earlier=pobs, now=obs)))
-    slot['prev'] = (res, obs, items) if res is not None else None
+    # the caller may do what it likes with a result: change it before the spec object is used again
+    if isinstance(res, list):
+        res.append('changed by the caller')
+        for v in res[:-1]:
+            if isinstance(v, list):
+                v.append('changed by the caller')
+    elif isinstance(res, dict):
+        for v in list(res.values()):
+            if isinstance(v, list):
+                v.append('changed by the caller')
+            elif isinstance(v, dict):
+                v['changed by the caller'] = 0
+        res['changed by the caller'] = 0
+    slot['prev'] = (res, rs.proj(res), items) if res is not None else None
 
 
 def replay_flat(levels, items, ev, out):
@@ -465,8 +499,10 @@ def replay_flat(levels, items, ev, out):
         plans.append((specs['boxed'][0], 0, 'list', True) if turn % 2 else (specs['boxed'][1], 1, 'gen', True))
     for rs, spelling, variant, boxed in plans:
         boxed = rs.boxed
-        heap, cells, tgt = make_target(rs, items, variant)
-        how = 'glom(%s target, g) spelling=%d%s' % (variant, spelling, ' boxed items' if boxed else '')
+        odd = turn % 2 == 0 and variant != 'gen'
+        heap, cells, tgt = make_target(rs, items, variant, odd=odd)
+        how = 'glom(%s target, g) spelling=%d%s%s' % (variant, spelling, ' boxed items' if boxed else '',
+                                                      ' falsy subclass containers' if odd else '')
         res, obs = observe(rs, lambda: glom.glom(tgt, rs.g))
         ok = _check_result(out, levels, items, ev, rs, how, res, obs, heap, cells)
         if ok:
@@ -608,25 +644,28 @@ AGGS = ['First', 'Max', 'Min', 'Avg', 'Count', 'Sum', 'Flatten', 'Merge']
 
 
 ORD_KFS = ['ident', 'len', 'first']
+ODD_ITEMS = [{'k': 'int', 'i': 0}, {'k': 'bool', 'b': False}, {'k': 'int', 'i': 1}, {'k': 'frac', 'n': 1, 'd': 1},
+             {'k': 'bool', 'b': True}, {'k': 'str', 's': ''}, {'k': 'none'}, {'k': 'tup', 'items': []},
+             {'k': 'int', 'i': -1}, {'k': 'int', 'i': -2}, {'k': 'list', 'items': [{'k': 'int', 'i': 7}]}]
 WORDS = ['a', 'ab', 'b', 'ba']
 
 
 def rand_spec(rng):
     """-> (levels, item kind)"""
     nk = rng.choice([0, 1, 1, 2, 2, 3])
-    kind = rng.choice(['int', 'int', 'int', 'int', 'int', 'str', 'tup', 'hostile'])
+    kind = rng.choice(['int', 'int', 'int', 'int', 'int', 'str', 'tup', 'hostile', 'odd'])
     levels = []
     r = rng.random()
     if r < 0.25:
         levels.append({'op': 'limit', 'n': rng.choice([0, 1, 2, 3, 5, 8])})
-    levels += [{'op': 'dict', 'key': rng.choice({'int': KFS, 'hostile': ['mod2', 'half', 'const']}.get(kind, ORD_KFS))}
+    levels += [{'op': 'dict', 'key': rng.choice({'int': KFS, 'hostile': ['mod2', 'half', 'const'], 'odd': ['ident', 'ident', 'const']}.get(kind, ORD_KFS))}
                for _ in range(nk)]
     r = rng.random()
-    if kind == 'hostile':
+    if kind in ('hostile', 'odd'):
         leaf = rng.choice([{'op': 'list', 'agg': '', 'val': 'ident'}, {'op': 'list', 'agg': '', 'val': 'ident'},
                            {'op': 'last', 'agg': '', 'val': 'ident'}, {'op': 'agg', 'agg': 'First', 'val': 'ident'},
                            {'op': 'agg', 'agg': 'Count', 'val': 'ident'},
-                           {'op': 'agg', 'agg': 'Sample', 'val': 'ident', 'n': 20}])
+                           {'op': 'agg', 'agg': 'Sample', 'val': 'ident', 'n': rng.choice([0, 20])}])
     elif kind != 'int':
         leaf = rng.choice([{'op': 'list', 'agg': '', 'val': 'ident'}, {'op': 'last', 'agg': '', 'val': 'ident'}] +
                           [{'op': 'agg', 'agg': a, 'val': 'ident'} for a in ('First', 'Max', 'Min', 'Max', 'Min', 'Count')] +
@@ -663,6 +702,8 @@ def rand_hist(rng, levels, max_items, nest, kind='int'):
         pool = [{'k': 'str', 's': w} for w in WORDS]
     elif kind == 'hostile':
         pool = [{'k': kk, 'i': i} for kk in ('any', 'strict') for i in range(4)]
+    elif kind == 'odd':
+        pool = ODD_ITEMS
     elif kind == 'tup':
         pool = [{'k': 'tup', 'items': [{'k': 'int', 'i': i}, {'k': 'str', 's': w}]} for i in (0, 1, 2) for w in WORDS]
     elif id_safe(levels) and rng.random() < 0.5:
@@ -771,6 +812,8 @@ UNIVERSES = {
                         WithFaults='TRUE')),
         ('hostile', consts(MaxKeyLevels=1, MaxItems=3, MaxTotal=3, ItemKind='"hostile"', KFs=tla_set(['mod2', 'const']),
                            Aggs=tla_set(['First', 'Count']), VFs=tla_set(['ident']), LimitNs='{99, 2}', SampleNs='{3}')),
+        ('odd', consts(MaxKeyLevels=1, MaxItems=2, MaxTotal=2, ItemKind='"odd"', KFs=tla_set(['ident', 'const']),
+                       Aggs=tla_set(['First', 'Count']), VFs=tla_set(['ident']), LimitNs='{99, 1}', SampleNs='{0, 2}')),
         ('limit0', consts(MaxKeyLevels=1, MaxItems=2, MaxTotal=2, ItemMax=1, KFs=tla_set(['mod2']), LimitNs='{0}')),
         ('ids', consts(MaxKeyLevels=2, MaxItems=3, MaxTotal=3, ItemMax=1, WithIds='TRUE', KFs=tla_set(['ident']),
                        Aggs=tla_set(['First', 'Count']), VFs=tla_set(['ident']), LimitNs='{99, 2}')),
@@ -805,6 +848,8 @@ UNIVERSES = {
                                WithFaults='TRUE')),
         ('hostile', consts(MaxKeyLevels=2, MaxItems=4, MaxTotal=4, ItemKind='"hostile"', KFs=tla_set(['mod2', 'half', 'const']),
                            Aggs=tla_set(['First', 'Count']), VFs=tla_set(['ident']), LimitNs='{99, 2}', SampleNs='{4}')),
+        ('odd', consts(MaxKeyLevels=2, MaxItems=3, MaxTotal=3, ItemKind='"odd"', KFs=tla_set(['ident', 'const']),
+                       Aggs=tla_set(['First', 'Count']), VFs=tla_set(['ident']), LimitNs='{99, 2}', SampleNs='{0, 2}')),
         ('limit0', consts(MaxKeyLevels=2, MaxItems=2, MaxTotal=2, ItemMax=1, KFs=tla_set(['mod2', 'skip0']), LimitNs='{0}')),
         ('ids', consts(MaxKeyLevels=3, MaxItems=4, MaxTotal=4, ItemMax=1, WithIds='TRUE', KFs=tla_set(['ident']),
                        Aggs=tla_set(['First', 'Count']), VFs=tla_set(['ident']), LimitNs='{99, 2}')),
@@ -828,6 +873,8 @@ SMALL_LAZY = consts(MaxKeyLevels=0, MaxItems=3, MaxTotal=3, ItemMax=1, Aggs=tla_
                     LimitNs='{99, 1}', WithFaults='TRUE')
 SMALL_HOSTILE = consts(MaxKeyLevels=0, MaxItems=2, MaxTotal=2, ItemKind='"hostile"', Aggs=tla_set(['Count']),
                        VFs=tla_set(['ident']), LimitNs='{99}')
+SMALL_ODD = consts(MaxKeyLevels=1, MaxItems=2, MaxTotal=2, ItemKind='"odd"', KFs=tla_set(['ident']), Aggs=tla_set(['Count']),
+                   VFs=tla_set(['ident']), LimitNs='{99}')
 SMALL_NESTED = consts(MaxKeyLevels=1, MaxItems=2, MaxTotal=3, ItemMax=1, MaxEvals=2, MaxDepth=2, KFs=tla_set(['mod2']),
                       Aggs=tla_set(['Max', 'Avg', 'Sum']), VFs=tla_set(['ident']), LimitNs='{99, 1}')
 
@@ -854,7 +901,7 @@ def model_level_jobs(tier):
         if tier == 'quick' else \
         [('carry', SMALL_NESTED), ('avgint', SMALL), ('limit1', SMALL), ('firstlast', SMALL), ('curagg', SMALL_INNER),
          ('minnum', SMALL_ORD), ('sampledrop', SMALL_CONS), ('list2swap', SMALL_CONS), ('limit1', SMALL_CONS),
-         ('eager', SMALL_LAZY), ('eqskip', SMALL_HOSTILE)]
+         ('eager', SMALL_LAZY), ('eqskip', SMALL_HOSTILE), ('idkeys', SMALL_ODD)]
     for m, universe in muts:
         runs.append(dict(label='mutant %s rejected' % m, module='MC_C16', cfg='MC_C16',
                          constants=dict(universe, Mutant='"%s"' % m), expect='any', workers=2, heap='2g'))
